@@ -983,7 +983,12 @@ fn equality_with_disclosed_reference<S: ShortGroupSignatureScheme + 'static>(em:
                     v["proofs"]["eq0"] = json!({"Equality": {"id": "eq0"}});
                 }
                 match pres_from_value::<S>(&v) {
-                    Out::Ok(q) => judge(em, "c09", suite, &format!("equality-with-disclosed-reference:{}", case), &scn, &q, "disclosed value differs from the hidden ones"),
+                    Out::Ok(q) => {
+                        judge(em, "c09", suite, &format!("equality-with-disclosed-reference:{}", case), &scn, &q, "disclosed value differs from the hidden ones");
+                        // model: the verdict of the equality verifier on the collected references (everything else in q is valid)
+                        let refs: Vec<String> = scn.sig_ids.iter().map(|id| sig_ref_tok(&v, id, 4)).collect();
+                        em.op(format!("eq.verdict {} {} {}", if suite == "bbs" { 0 } else { 2 }, 1, refs.join(" ")), format!("{}", scn.verify(&q).is_ok()));
+                    }
                     _ => em.count("equality-with-disclosed-reference:undecodable"),
                 }
             }
